@@ -99,7 +99,7 @@ Definition own_iop (cs : list tok) (mk : option rule) (o : iop) : bool :=
 
 Definition nftop_table (o : nftop) : tok :=
   match o with
-  | NAddTable t | NAddChain t _ _ | NFlushChain t _ | NAddRule t _ _ | NDeleteTable t => t
+  | NAddTable t | NAddChain t _ _ | NFlushChain t _ | NAddRule t _ _ | NDeleteTable t | NCreateChain t _ _ => t
   end.
 
 Definition own_cmd (c : cfg) (x : cmd) : bool :=
@@ -212,7 +212,7 @@ Qed.
 Lemma nft_exec_erase ns o L L' :
   tmem (nftop_table o) ns = true -> nft_exec o L = Some L' -> erase_nft ns L' = erase_nft ns L.
 Proof.
-  intros Ht He. destruct o as [t|t c sp|t c|t c a|t]; simpl in *.
+  intros Ht He. destruct o as [t|t c sp|t c|t c a|t|t c sp]; simpl in *.
   - destruct (find_tbl t L); inversion He; subst; [reflexivity|].
     unfold erase_nft. rewrite filter_app. simpl. rewrite Ht. simpl. apply app_nil_r.
   - destruct (find_tbl t L) as [T|]; [|discriminate].
@@ -222,6 +222,8 @@ Proof.
   - destruct (find_tbl t L) as [T|]; [|discriminate].
     destruct (find_chain c T); inversion He; subst. apply erase_nft_set; assumption.
   - destruct (find_tbl t L); inversion He; subst. apply erase_nft_del; assumption.
+  - destruct (find_tbl t L) as [T|]; [|discriminate].
+    destruct (find_chain c T); inversion He; subst. apply erase_nft_set; assumption.
 Qed.
 
 (* ------------------------------------------------------------------ *)
